@@ -91,6 +91,8 @@ def _run_bw(case):
     from torchjd import backward
     from torchjd.aggregation import Constant, Mean, Sum
 
+    from mc.seams import SetOrderSeam
+
     prog, outs, seed = case["prog"], case["outs"], case["seed"]
     t = P.Typed(prog)
     lv = P.leaf_values(t.shapes[: t.nleaves], seed)
@@ -128,8 +130,12 @@ def _run_bw(case):
                 A[i].grad = torch.full_like(A[i], 0.5 + i)
                 B[i].grad = torch.full_like(B[i], 0.5 + i)
         cfg = f"w={w} inputs={inputs} chunk={chunk}"
+        # every set(...) built inside torchjd.autojac iterates in listing order (even configurations) or reversed (odd ones)
+        sgn = 1 if ci % 2 == 0 else -1
+        rank = {id(A[v]): sgn * v for v in range(t.nvalues)}
         try:
-            backward([A[o] for o in outs], agg, inputs=None if inputs is None else [A[l] for l in inputs], parallel_chunk_size=chunk)
+            with SetOrderSeam(lambda x: rank.get(id(x), 10 ** 6)):
+                backward([A[o] for o in outs], agg, inputs=None if inputs is None else [A[l] for l in inputs], parallel_chunk_size=chunk)
         except Exception as e:
             viol.append(dict(sig=f"exception:bw:{type(e).__name__}", msg=f"{P.prog_str(prog, outs)} | {cfg} | {e!r}"[:600]))
             execs += 1
